@@ -649,7 +649,8 @@ class _Inliner:
 
 def _kind_of(fn, in_class):
     if not in_class:
-        return "func"
+        # a decorated function (lru_cache, contextmanager, ...) is not its body
+        return None if fn.decorator_list else "func"
     decos = {d.id for d in fn.decorator_list if isinstance(d, ast.Name)}
     if "staticmethod" in decos:
         return "static"
@@ -1203,19 +1204,20 @@ def specialise_new_parameters(trees, inv):
 
 
 SCALE = 1000
+BASE = 10 ** 9
 
 
 def scale_lines(fn):
     """statements inlined at a call all carry the call's line; rules that ask 'does this come before that' by line number need an order.
-    In a function that received inlined code every line number L becomes L*1000 (+ the position of an inlined statement within its
+    In a function that received inlined code every line number L becomes 10^9 + L*1000 (+ the position of an inlined statement within its
     expansion); sa/core.py divides again wherever a line is printed."""
     base = {}
     for y in ast.walk(fn):
-        if hasattr(y, "lineno") and y.lineno < 100000:
+        if hasattr(y, "lineno") and y.lineno < BASE:
             k = getattr(y, "_inl", 0)
-            y.lineno = y.lineno * SCALE + min(k, SCALE - 1)
-            if getattr(y, "end_lineno", None) is not None and y.end_lineno < 100000:
-                y.end_lineno = y.end_lineno * SCALE + min(k, SCALE - 1)
+            y.lineno = BASE + y.lineno * SCALE + min(k, SCALE - 1)
+            if getattr(y, "end_lineno", None) is not None and y.end_lineno < BASE:
+                y.end_lineno = BASE + y.end_lineno * SCALE + min(k, SCALE - 1)
     # a statement after an expansion on the same source line cannot exist (the call was a whole statement)
 
 
